@@ -632,6 +632,11 @@ impl Store {
         batch.insert(&self.frame_partition, frame.id.as_bytes(), encoded);
         batch.insert(&self.idx_topic, topic_key, b"");
         batch.insert(&self.idx_context, idx_context_key_from_frame(frame), b"");
+        // in runs that ask for it, the instant before the commit is a step boundary
+        #[cfg(xs_verif)]
+        if crate::verif::knob("insert.point", 0) == 1 {
+            crate::verif::point("insert.commit", frame.id.to_u128());
+        }
         batch.commit()?;
         self.keyspace.persist(fjall::PersistMode::SyncAll)?;
 
